@@ -150,7 +150,7 @@ def distorted(wf, vendor, rng, corrupt=False):
     return file_coeffs, ca, cb
 
 
-def write_molden(wf, file_coeffs, ca, cb, unit, title=True):
+def write_molden(wf, file_coeffs, ca, cb, unit, title=True, mo_digits=None):
     ob = wf["obasis"]
     out = ["[Molden Format]"]
     if title:
@@ -189,7 +189,7 @@ def write_molden(wf, file_coeffs, ca, cb, unit, title=True):
             occ = (2.0 if cb is None else 1.0) if j < nocc else 0.0
             out += [" Sym= A", f" Ene= {E[j]:18.10f}", f" Spin= {spin}", f" Occup= {occ:10.6f}"]
             for mu in range(C.shape[0]):
-                out.append(f" {mu + 1:5d} {C[mu, j]:22.14E}")
+                out.append(f" {mu + 1:5d} {C[mu, j]:22.14E}" if mo_digits is None else f" {mu + 1:5d} {C[mu, j]:12.{mo_digits}f}")
     return "\n".join(out) + "\n"
 
 
@@ -237,19 +237,20 @@ PROBE = np.array([[0.3, -0.2, 0.5], [-0.7, 0.9, 0.1], [1.5, 0.4, -0.6], [2.1, 1.
 
 
 def vendor_case(task):
-    vendor, tnames, fmt, unit, unres, thr, seed, corrupt = task
+    vendor, tnames, fmt, unit, unres, thr, seed, corrupt = task[:8]
+    mo_digits = task[8] if len(task) > 8 else None     # orbital coefficients printed with few decimals (as many programs do)
     from iodata import api
     from iodata.utils import LoadError, LoadWarning
     rng = random.Random(seed)
     types = [NAME_TYPE[n] for n in tnames]
     natom = rng.randint(1, 2)
     ev = {"op": "Vendor", "vendor": "corrupt" if corrupt else vendor, "encoding": vendor, "types": sorted(set(tnames)), "fmt": fmt, "unit": unit,
-          "unrestricted": unres, "norm_threshold": thr, "seed": seed, "out": "loaded", "same": True, "orthonormal": True, "warning": "none", "msg": ""}
+          "unrestricted": unres, "norm_threshold": thr, "mo_digits": mo_digits or 0, "seed": seed, "out": "loaded", "same": True, "orthonormal": True, "warning": "none", "msg": ""}
     tmp = tempfile.mkdtemp(prefix="c05_")
     try:
         wf = true_wavefunction(rng, types, natom, unres)
         fc, ca, cb = distorted(wf, vendor, rng, corrupt)
-        text = write_molden(wf, fc, ca, cb, unit) if fmt == "molden" else write_molekel(wf, fc, ca, cb)
+        text = write_molden(wf, fc, ca, cb, unit, mo_digits=mo_digits) if fmt == "molden" else write_molekel(wf, fc, ca, cb)
         path = os.path.join(tmp, "v.molden" if fmt == "molden" else "v.mkl")
         open(path, "w").write(text)
         with warnings.catch_warnings(record=True) as wl:
@@ -277,15 +278,21 @@ def vendor_case(task):
         B0 = basis_values(wf["obasis"], wf["xyz"], PROBE)
         B1 = basis_values(obj.obasis, obj.atcoords, PROBE)
         tol = 2e-5 if fmt == "molekel" else 2e-6
+        extra = 0.0
+        if mo_digits:
+            # every printed coefficient is off by up to half a unit of the last decimal; undoing the vendor's factor of a basis
+            # function divides that error by the factor
+            rowf = np.concatenate([mo_factors(vendor, (int(sh.angmoms[0]), str(sh.kinds[0]))) for sh in wf["obasis"].shells])
+            extra = 2.0 * (0.5 * 10.0 ** (-mo_digits) / np.abs(rowf)) @ np.abs(B0)
         for C0, C1 in ((wf["ca"], obj.mo.coeffsa), (wf["cb"], obj.mo.coeffsb if wf["cb"] is not None else None)):
             if C0 is None:
                 continue
             v0, v1 = C0.T @ B0, C1.T @ B1
             sc = np.abs(C0).T @ np.abs(B0)
-            if v0.shape != v1.shape or not np.all(np.abs(v0 - v1) <= tol * (sc + 1e-3) + 1e-9):
+            if v0.shape != v1.shape or not np.all(np.abs(v0 - v1) <= tol * (sc + 1e-3) + 1e-9 + extra):
                 ev["same"] = False
             S = ref_overlap(obj.obasis, obj.atcoords)
-            if not np.allclose(C1.T @ S @ C1, np.eye(C1.shape[1]), atol=50 * tol):
+            if not np.allclose(C1.T @ S @ C1, np.eye(C1.shape[1]), atol=50 * tol + (thr if mo_digits else 0.0)):
                 ev["orthonormal"] = False
         return ev
     except Exception as exc:  # noqa: BLE001
@@ -312,6 +319,14 @@ def plan(run, rng):
                 if fmt == "molekel" and any(t in ("hp",) for t in tnames):
                     continue
                 tasks.append((vendor, tnames, fmt, unit, bool(i % 2), thr, rng.randint(0, 10**9), False))
+    # files with orbital coefficients printed to three decimals, loaded with the correspondingly wider norm_threshold the
+    # loader offers for this purpose: the same vendor must be recognised
+    for vendor, allowed in ALLOWED.items():
+        singles = [[t] for t in allowed]
+        for i, sub in enumerate(singles if run.thorough() else singles[:: 2]):
+            if any(t == "hp" for t in sub):
+                continue
+            tasks.append((vendor, list(sub) + ["s"], "molden", "AU", bool(i % 2), 2e-2, rng.randint(0, 10**9), False, 3))
     for i in range(run.pick(6, 60)):
         vendor = rng.choice(["standard", "orca", "turbomole"])
         sub = rng.sample(ALLOWED[vendor], 2)
